@@ -239,6 +239,14 @@ def obligations(tier):
         obs.append(fisher(d, False))
         if tier == "thorough" or d == 2:
             obs.append(fisher(d, True))
+    # frame: evaluating an equation leaves the caller's parameters unchanged (a residual that depends on how often it was
+    # evaluated is not "the documented expression"): the C20 ownership analysis of the equation code, reported here
+    from contracts import c20
+    for q in c20.cone_names():
+        if q.startswith(("jinns.loss._DynamicLossAbstract:", "jinns.loss._DynamicLoss:", "jinns.parameters._params:ParamsDict.extract_params")):
+            o = c20.frame_ob(q)
+            o.name = o.name.replace("C20/frame/", "C02/frame.arguments_unchanged/")
+            obs.append(o)
     for n_other in (0, 1, 2):
         for layout in ("per-network", "shared"):
             if tier == "quick" and n_other == 2 and layout == "shared":
